@@ -61,7 +61,13 @@ func (e *legacyExtra) addResults(results flows.Results) {
 		sortedResults = append(sortedResults, result)
 
 	}
-	sort.SliceStable(sortedResults, func(i, j int) bool { return sortedResults[i].CreatedOn.Before(sortedResults[j].CreatedOn) })
+	sort.Slice(sortedResults, func(i, j int) bool {
+		// results created at the same instant are ordered by name so that the order never depends on map iteration
+		if sortedResults[i].CreatedOn.Equal(sortedResults[j].CreatedOn) {
+			return sortedResults[i].Name < sortedResults[j].Name
+		}
+		return sortedResults[i].CreatedOn.Before(sortedResults[j].CreatedOn)
+	})
 
 	// add each result in order
 	for _, result := range sortedResults {
